@@ -9,6 +9,7 @@ from .. import build as B
 from .. import cshapes as CS
 from .. import lp
 from .. import oracle as O
+from .. import purity
 
 PROP = "C07"
 RULE = (
@@ -37,7 +38,7 @@ def jobs(tier, seed):
         names = ["x", "y", "z", "w", "u"][:nv]
         base = [B.rterm(rng, names, za) for _ in range(rng.choice([1, 2, 3]))]
         terms = list(base)
-        plant = rng.choice(["dup", "scaled", "combo", "none", "opposite", "dup+combo", "near-dup"])
+        plant = rng.choice(["dup", "scaled", "combo", "none", "opposite", "dup+combo", "near-dup", "zero-row", "shares-context"])
         if "dup" in plant:
             terms.append(dict(rng.choice(base)))
         if plant == "scaled":
@@ -54,6 +55,9 @@ def jobs(tier, seed):
                 terms.append(c)
         if plant == "opposite":
             terms.append({k: -v for k, v in base[0].items()})
+        if plant == "zero-row":
+            # a variable-free row 0 <= c (what a cancelling substitution leaves behind): harmless iff c >= 0
+            terms.insert(rng.randrange(len(terms) + 1), {})
         near = None
         if plant == "near-dup":
             # a term that differs from another one only in the sixth digit of one coefficient
@@ -66,6 +70,8 @@ def jobs(tier, seed):
         max_t = 5 if tier == "quick" else 6
         terms = terms[:max_t]
         ctx_mode = rng.choice(["none", "none", "random", "implies", "shared"])
+        if plant == "shares-context":
+            ctx_mode = "shared"
         if near is not None and near in terms:
             # the near-duplicate's twin goes to the context half of the time
             ctx_mode = rng.choice(["near-in-context", "none"])
@@ -87,6 +93,18 @@ def jobs(tier, seed):
             c["g"].append(dict(c["a"][0]))  # guarantee repeating an assumption
         out.append({"kind": "contract", "c": c, "method": rng.choice(["ctor", "simplify"])})
     return out
+
+
+def infeasible_claim(ctx, rows):
+    """Formula that is satisfiable iff a 'the system is infeasible' claim is wrong (rows may be variable-free)."""
+    free = [c for coefs, c in rows if not coefs]
+    rest = [(coefs, c) for coefs, c in rows if coefs]
+    conj = [O.E.toz(c) >= 0 for c in free]
+    if rest:
+        names = O.names_of(rest)
+        A, b = O.matrix_of(rest, names)
+        conj.append(lp.feasibility_claims(ctx.mode, A, b)[0])
+    return z3.And(*conj) if conj else z3.BoolVal(True)
 
 
 def droppable_with_margin(kept_rows, ctx_rows, i):
@@ -162,24 +180,25 @@ def run(ctx, job):
         check_simplify(ctx, g, a, c.g, "contract-")
         return {"cls": "OK", "res": c}
     tl = B.mk_tl(ctx, job["terms"], "t")
+    orig_tl = tl.copy()  # the reference for the meaning, in case the call modifies its operand
     if job["ctx_shared_const"]:
         cx = P.PolyhedralTermList([P.PolyhedralTerm({B.Var(n): v for n, v in job["ctx"][0].items()}, tl.terms[0].constant)])
     else:
         cx = B.mk_tl(ctx, job["ctx"], "c")
+    before = purity.guard(ctx, {"list": tl, "context": cx})
     try:
         if not job["ctx"] and job.get("explicit_none"):
             res = tl.simplify()
         else:
             res = tl.simplify(cx)
     except ValueError as e:
-        names = O.names_of(tl, cx)
-        A, b = O.matrix_of(list(O.rows_of(tl)) + list(O.rows_of(cx)), names)
-        ctx.obligation("valueerror-only-if-infeasible", lp.feasibility_claims(ctx.mode, A, b)[0])
+        ctx.obligation("valueerror-only-if-infeasible", infeasible_claim(ctx, list(O.rows_of(orig_tl)) + list(O.rows_of(cx))))
         return {"cls": B.classify(e)}
     except Exception as e:
         ctx.expect("only-documented-exceptions", False, info=B.classify(e) + "@" + B.innermost_pacti_frame(e))
         return {"cls": B.classify(e)}
-    check_simplify(ctx, tl, cx, res)
+    purity.check_unchanged(ctx, before, {"list": tl, "context": cx}, "simplify-leaves-its-operands-unchanged")
+    check_simplify(ctx, orig_tl, cx, res)
     return {"cls": "OK", "res": res}
 
 
